@@ -12,53 +12,54 @@ var assumeS = []string{
 	"a stuck verdict needs every goroutine of the process blocked in the same place in three dumps while no harness event happens",
 }
 
-func init() {
-	checks["C01"] = checkC01
-	checks["C03"] = checkC03
-	checks["C05"] = checkC05
-	checks["C06"] = checkC06
-	checks["C07"] = checkC07
-	checks["C08"] = checkC08
-	checks["C09"] = checkC09
-	checks["C19"] = checkC19
+func schedC12(c *ctx) map[string]interface{} {
+	// The race detector generalises each observed execution by happens-before;
+	// reports vary from run to run, so the workload is large and repeated by the thorough tier.
+	plan := []famCount{{"mix", c.scale(300)}, {"failfast", c.scale(150)}, {"coe", c.scale(150)}, {"cancel", c.scale(150)}, {"drain", c.scale(60)}, {"prompt", c.scale(40)}}
+	a := runSched(c, plan, true)
+	cov := a.coverage("Engine S under the Go race detector (-race -tags verif), quiet mode: job bodies share no recorder, each writes one plain slot and reads the plain slots of its dependencies, so the only synchronisation between producer and consumer is the scheduler's; " +
+		"concurrent Enqueue from up to 5 goroutines; early returns with jobs still running; hook perturbation with per-thread randomness. Any WARNING: DATA RACE block is a violation (deduplicated by stack pair). " +
+		"non-trivial: scenario has at least two jobs or a dependency edge")
+	cov["race_reports"] = a.RaceReports
+	return cov
 }
 
-func checkC01(c *ctx) {
+func schedC01(c *ctx) map[string]interface{} {
 	a := runSched(c, []famCount{{"mix", c.scale(2000)}, {"coe", c.scale(600)}, {"failfast", c.scale(600)}, {"drain", c.scale(200)}}, false)
-	schedEvidence(c, a, ruleS+"some started job has >= 2 distinct dependencies, or the loop saw an enqueue whose dependency had already finished", nil, assumeS)
+	return a.coverage(ruleS+"some started job has >= 2 distinct dependencies, or the loop saw an enqueue whose dependency had already finished")
 }
 
-func checkC03(c *ctx) {
+func schedC03(c *ctx) map[string]interface{} {
 	a := runSched(c, []famCount{{"wide", c.scale(96)}, {"barrier", c.scale(600)}, {"mix", c.scale(1200)}, {"saturate", c.scale(300)}}, false)
-	schedEvidence(c, a, ruleS+"at least two bodies were in flight at once, or a goroutine census was taken while N bodies were held on the gate (wide: up to 10^5 jobs; barrier: N-party barrier after 0/1/N/3N Goexit jobs)", nil, assumeS)
+	return a.coverage(ruleS+"at least two bodies were in flight at once, or a goroutine census was taken while N bodies were held on the gate (wide: up to 10^5 jobs; barrier: N-party barrier after 0/1/N/3N Goexit jobs)")
 }
 
-func checkC05(c *ctx) {
+func schedC05(c *ctx) map[string]interface{} {
 	a := runSched(c, []famCount{{"mix", c.scale(1500)}, {"drain", c.scale(1200)}, {"failfast", c.scale(500)}, {"coe", c.scale(500)}, {"cancel", c.scale(500)}}, false)
-	schedEvidence(c, a, ruleS+"at least two jobs (every scenario exercises Enqueue*, Wait and the exit paths)", nil, assumeS)
+	return a.coverage(ruleS+"at least two jobs (every scenario exercises Enqueue*, Wait and the exit paths)")
 }
 
-func checkC06(c *ctx) {
+func schedC06(c *ctx) map[string]interface{} {
 	a := runSched(c, []famCount{{"drain", c.scale(1500)}, {"failfast", c.scale(900)}, {"mix", c.scale(900)}, {"cancel", c.scale(500)}, {"coe", c.scale(400)}, {"prompt", c.scale(300)}}, false)
-	schedEvidence(c, a, ruleS+"at least two jobs; after every scenario the process must return to its goroutine baseline (leaks are diagnosed from three stable dumps)", nil, assumeS)
+	return a.coverage(ruleS+"at least two jobs; after every scenario the process must return to its goroutine baseline (leaks are diagnosed from three stable dumps)")
 }
 
-func checkC07(c *ctx) {
+func schedC07(c *ctx) map[string]interface{} {
 	a := runSched(c, []famCount{{"failfast", c.scale(2500)}, {"drain", c.scale(500)}, {"cancel", c.scale(500)}, {"mix", c.scale(500)}}, false)
-	schedEvidence(c, a, ruleS+"fail-fast mode and at least one job body actually failed", nil, assumeS)
+	return a.coverage(ruleS+"fail-fast mode and at least one job body actually failed")
 }
 
-func checkC08(c *ctx) {
+func schedC08(c *ctx) map[string]interface{} {
 	a := runSched(c, []famCount{{"coe", c.scale(3000)}, {"mix", c.scale(800)}, {"cancel", c.scale(400)}}, false)
-	schedEvidence(c, a, ruleS+"ContinueOnError mode and at least one job body actually failed", nil, assumeS)
+	return a.coverage(ruleS+"ContinueOnError mode and at least one job body actually failed")
 }
 
-func checkC09(c *ctx) {
+func schedC09(c *ctx) map[string]interface{} {
 	a := runSched(c, []famCount{{"cancel", c.scale(2500)}, {"prompt", c.scale(600)}, {"saturate", c.scale(600)}, {"mix", c.scale(500)}}, false)
-	schedEvidence(c, a, ruleS+"the context was cancelled and either some job was in the must-not-start set (depends on the cancelling job / submitted after cancel() returned / all workers held until after cancel()) or at least two jobs were submitted", nil, assumeS)
+	return a.coverage(ruleS+"the context was cancelled and either some job was in the must-not-start set (depends on the cancelling job / submitted after cancel() returned / all workers held until after cancel()) or at least two jobs were submitted")
 }
 
-func checkC19(c *ctx) {
+func schedC19(c *ctx) map[string]interface{} {
 	a := runSched(c, []famCount{{"state", c.scale(2500)}, {"mix", c.scale(600)}, {"drain", c.scale(300)}}, false)
-	schedEvidence(c, a, ruleS+"at least one state report was emitted (StateFlushFrequency = 1ns) and checked", nil, assumeS)
+	return a.coverage(ruleS+"at least one state report was emitted (StateFlushFrequency = 1ns) and checked")
 }
